@@ -575,6 +575,22 @@ impl ZmtpEngine {
         .get("Identity")
         .map(|v| Blob::from(v.clone()));
 
+      // Reject socket-type pairings that are not valid ZeroMQ patterns, exactly as the
+      // ZMTP/2.0 greeting path does (a READY without Socket-Type is tolerated).
+      if let Some(ref peer_type) = peer_socket_type {
+        let verdict = match socket_type_code(peer_type) {
+          Some(code) => self.validate_v2_compatibility(code),
+          None => Err(ZmqError::ProtocolViolation(format!(
+            "Peer announced unknown Socket-Type '{}'",
+            peer_type
+          ))),
+        };
+        if let Err(e) = verdict {
+          self.fail(out, e);
+          return;
+        }
+      }
+
       if self.is_server {
         // Server received client READY → send server READY then complete.
         self.emit_local_ready(out);
@@ -792,7 +808,7 @@ impl ZmtpEngine {
     );
     if !ok {
       return Err(ZmqError::ProtocolViolation(format!(
-        "Incompatible ZMTP/2.0 sockets: local {} <-> peer {}",
+        "Incompatible socket types: local {} <-> peer {}",
         own, peer_name
       )));
     }
